@@ -415,18 +415,22 @@ def notContainsQ (f : FNode) (q : Loc) : Bool :=
   decide (f.ln > q.ln) || (f.ln == q.ln && decide (f.col > q.col))
   || decide (f.endLn < q.endLn) || (f.endLn == q.endLn && decide (f.endCol < q.endCol))
 
-/-- the `while True: for f in self.walk('loc', self_=False)` loop of `find_contains_loc`: current node, the list that
-follows the current node, the rest of the walk. -/
-def containsGo (q : Loc) (allowExact : Bool) : FNode → List FNode → List FNode → FNode × List FNode
+/-- the `while True: for f in self.walk('loc', self_=False)` loop of `find_contains_loc` WITHOUT the decorator search
+(this is what runs inside a decorator expression, which cannot contain a decorated definition): current node, the list
+that follows the current node, the rest of the walk.  An exact match ends the descent at the parent when exact matches
+are not allowed and at the match itself for `'top'` (the walk is top-down: the first exact match is the highest). -/
+def containsGo (q : Loc) (ae : AllowExact) : FNode → List FNode → List FNode → FNode × List FNode
   | cur, ctail, [] => (cur, ctail)
   | cur, ctail, f :: rest =>
     if f.depth ≤ cur.depth then (cur, ctail)
-    else if endsBeforeQ f q then containsGo q allowExact cur ctail rest
+    else if endsBeforeQ f q then containsGo q ae cur ctail rest
     else if notContainsQ f q then (cur, ctail)
-    else if !allowExact && exactQ f q then (cur, ctail)
-    else containsGo q allowExact f rest rest
+    else if exactQ f q && ae == .no then (cur, ctail)
+    else if exactQ f q && ae == .top then (f, rest)
+    else containsGo q ae f rest rest
 
-/-- `FST.find_contains_loc` from the first node of the list: the node found and the list that follows it. -/
+/-- `FST.find_contains_loc` (without the decorator search) from the first node of the list: the node found and the list
+that follows it. -/
 def findContains (nodes : List FNode) (q : Loc) (ae : AllowExact) : Option (FNode × List FNode) :=
   match nodes with
   | [] => none
@@ -434,7 +438,46 @@ def findContains (nodes : List FNode) (q : Loc) (ae : AllowExact) : Option (FNod
     if containsQ self q then
       if exactQ self q && ae == .no then none
       else if exactQ self q && ae == .top then some (self, tail)
-      else some (containsGo q (ae != .no) self tail tail)
+      else some (containsGo q ae self tail tail)
+    else none
+
+/-- `for deco in getattr(f.a, 'decorator_list', ()): if found := deco.f.find_contains_loc(...): return found` at a
+definition `f` of depth `d` that does not contain the location; the list is what follows `f` in the walk, `decos` are
+the ids of the decorator roots (children through the field `decorator_list`). -/
+def decoGo (decos : List Nat) (q : Loc) (ae : AllowExact) (d : Nat) : List FNode → Option (FNode × List FNode)
+  | [] => none
+  | g :: rest =>
+    if g.depth ≤ d then none
+    else if g.depth == d + 1 && decos.contains g.id then
+      match findContains (g :: rest) q ae with
+      | some r => some r
+      | none => decoGo decos q ae d rest
+    else decoGo decos q ae d rest
+
+/-- the loop of `find_contains_loc` as it is: before giving up at a child that does not contain the location its
+decorators (which precede its `loc`) are searched. -/
+def containsGoD (decos : List Nat) (q : Loc) (ae : AllowExact) : FNode → List FNode → List FNode → FNode × List FNode
+  | cur, ctail, [] => (cur, ctail)
+  | cur, ctail, f :: rest =>
+    if f.depth ≤ cur.depth then (cur, ctail)
+    else if endsBeforeQ f q then containsGoD decos q ae cur ctail rest
+    else if notContainsQ f q then
+      match decoGo decos q ae f.depth rest with
+      | some r => r
+      | none => (cur, ctail)
+    else if exactQ f q && ae == .no then (cur, ctail)
+    else if exactQ f q && ae == .top then (f, rest)
+    else containsGoD decos q ae f rest rest
+
+/-- `FST.find_contains_loc` from the first node of the list -/
+def findContainsD (decos : List Nat) (nodes : List FNode) (q : Loc) (ae : AllowExact) : Option (FNode × List FNode) :=
+  match nodes with
+  | [] => none
+  | self :: tail =>
+    if containsQ self q then
+      if exactQ self q && ae == .no then none
+      else if exactQ self q && ae == .top then some (self, tail)
+      else some (containsGoD decos q ae self tail tail)
     else none
 
 /-- `fln > ln or (fln == ln and fcol >= col)) and (fend_ln < end_ln or (fend_ln == end_ln and fend_col <= end_col)` -/
@@ -464,8 +507,8 @@ def findIn (nodes : List FNode) (q : Loc) : Option FNode :=
   | self :: tail => if insideQ self q then some self else inGo q self.depth tail
 
 /-- `FST.find_loc` from the first node of the list -/
-def findLoc (nodes : List FNode) (q : Loc) (exactTop : Bool) : Option FNode :=
-  match findContains nodes q (if exactTop then .top else .yes) with
+def findLoc (decos : List Nat) (nodes : List FNode) (q : Loc) (exactTop : Bool) : Option FNode :=
+  match findContainsD decos nodes q (if exactTop then .top else .yes) with
   | none => findIn nodes q
   | some (f, ftail) =>
     if f.col == q.col && f.endCol == q.endCol && f.ln == q.ln && f.endLn == q.endLn then some f
@@ -492,6 +535,31 @@ def wfList : List FNode → Bool
   | [] => true
   | f :: rest => wfAt f rest && wfList rest
 
+/-- the decorator part of the subtree of a definition of depth `d`: the leading run of subtrees whose roots are
+decorator roots (the walk yields the decorators first) -/
+def decoPrefix (decos : List Nat) (d : Nat) : Bool → List FNode → List FNode
+  | _, [] => []
+  | inD, g :: rest =>
+    if g.depth ≤ d then []
+    else if g.depth == d + 1 then (if decos.contains g.id then g :: decoPrefix decos d true rest else [])
+    else if inD then g :: decoPrefix decos d inD rest else []
+
+/-- `wfAt` for trees with decorated definitions: the decorator subtrees of `f` end at or before the start of `f` (and
+contain no decorator roots themselves), the rest of its subtree lies inside it, everything after its subtree starts at
+or after its end. -/
+def wfAtD (decos : List Nat) (f : FNode) (rest : List FNode) : Bool :=
+  let sub := rest.takeWhile (fun g => decide (g.depth > f.depth))
+  let dp := decoPrefix decos f.depth false sub
+  posLe f.start f.stop
+  && dp.all (fun g => posLe g.stop f.start && (g.depth == f.depth + 1 || !decos.contains g.id))
+  && (sub.drop dp.length).all (fun g => posLe f.start g.start && posLe g.stop f.stop)
+  && (rest.dropWhile (fun g => decide (g.depth > f.depth))).all (fun g => posLe f.stop g.start)
+
+/-- well-formedness of real walk lists: like `wfList`, decorators before their definition -/
+def wfListD (decos : List Nat) : List FNode → Bool
+  | [] => true
+  | f :: rest => wfAtD decos f rest && wfListD decos rest
+
 /-! ### brute-force reference selections (what a scan over the whole list would pick) -/
 
 /-- candidate of `find_contains_loc` below the start node -/
@@ -504,7 +572,8 @@ def subtree : List FNode → List FNode
   | self :: tail => self :: tail.takeWhile (fun f => decide (f.depth > self.depth))
 
 /-- brute force for `find_contains_loc`: the LAST candidate of the subtree in walk order (= the deepest one on
-well-formed trees) -/
+well-formed trees); for `'top'` the FIRST candidate that matches the rectangle exactly (= the highest of the nodes
+sharing the location) when there is one. -/
 def bruteContains (nodes : List FNode) (q : Loc) (ae : AllowExact) : Option FNode :=
   match nodes with
   | [] => none
@@ -513,9 +582,13 @@ def bruteContains (nodes : List FNode) (q : Loc) (ae : AllowExact) : Option FNod
       if exactQ self q && ae == .no then none
       else if exactQ self q && ae == .top then some self
       else
-        match ((subtree (self :: tail)).drop 1).filter (candContains q (ae != .no)) |>.getLast? with
+        let cands := ((subtree (self :: tail)).drop 1).filter (candContains q (ae != .no))
+        match (if ae == .top then cands.find? (fun f => exactQ f q) else none) with
         | some f => some f
-        | none => some self
+        | none =>
+          match cands.getLast? with
+          | some f => some f
+          | none => some self
     else none
 
 /-- brute force for `find_in_loc`: the FIRST node of the subtree in walk order that lies inside the rectangle -/
